@@ -24,7 +24,7 @@ def obligations(tier):
                        'argument equal to the marker value', 'more entries queued than the ring holds (wrap-around)']))
     obs.append(seq_ob('lifecycle', 2, 3, 8, 'register, defer, {barrier | barrier_thread | nothing}, unregister, register again, defer x2, unregister',
                       ['rcu_defer_barrier() before the first unregister']))
-    o = seq_ob('reclaimer_pass', 3, 5 if q else 6, 4,
+    o = seq_ob('reclaimer_pass', 3, 5, 4,   # K=6 not measured: both tiers use the measured bound
                'queuing thread operations (defer_rcu / rcu_defer_barrier_thread) interleaved at operation granularity with passes of the background reclaimer '
                '(wait_defer(); rcu_defer_barrier(), the body of thr_defer): a pass started while calls are pending never parks on its futex and runs all of them',
                ['two reclaimer passes with pending calls', 'calls pending after an earlier reclaimer pass (last_head behind head)'])
